@@ -36,9 +36,23 @@ type c07Input struct {
 	DstBlocks    []int      `json:"dstBlocks"`
 	DstTables    []int      `json:"dstTables"`
 	DstCommits   []int      `json:"dstCommits"`
-	Seed         int64      `json:"genSeed"` // the scenario is rebuilt from this seed on replay
+	Seed         int64      `json:"genSeed"`   // the scenario is rebuilt from this seed on replay
 	Dishonest    bool       `json:"dishonest"` // a commit needed by a later one was left out of toSend
+	Zones        [][]int    `json:"zones"`     // [commit id, zone offset of its time in minutes]
+	// negotiated transfers: toSend / tablesToSend / common are not given but computed by the real
+	// ClosedSetsFinder from what the destination asks for (they are reported with the outcome)
+	Negotiated bool    `json:"negotiated,omitempty"`
+	Refs       []int   `json:"refs,omitempty"`      // refs of the source repository
+	Wants      []int   `json:"wants,omitempty"`     // commits the destination lacks and asks for
+	Haves      [][]int `json:"haves,omitempty"`     // what it reports having, one batch per round (ids > n: unknown to the source)
+	Depth      int     `json:"depth,omitempty"`     // 0 = whole history with tables
+	NegDone    bool    `json:"negDone,omitempty"`   // the last round carries the done flag
+	TableAcks  bool    `json:"tableAcks,omitempty"` // selected tables that the destination acknowledges having are not offered (push)
 }
+
+// c07ZoneMinutes: zone offsets commits are authored in. Whole hours and fractional ones on both sides
+// of UTC (India, Nepal, Chatham, Newfoundland winter/summer, Marquesas, and a zone within an hour of UTC).
+var c07ZoneMinutes = []int{0, 0, 60, -480, 330, 345, 765, 840, -720, -210, -150, -570, -30, 30}
 
 type c07World struct {
 	src      *MemStore
@@ -49,11 +63,35 @@ type c07World struct {
 	blockSum map[int][]byte
 	tableSum map[int][]byte
 	comSum   map[int][]byte
+	// some table has a block whose last row ends with an empty cell
+	blockEndsEmpty bool
+}
+
+// c07BlankBlockEnd empties the last cell of a row that is the last of its block (rows are stored in
+// key order, 255 to a block): the block's bytes then end with a zero length prefix.
+func c07BlankBlockEnd(t *TableSpec, xr *rand.Rand) bool {
+	if len(t.Rows) == 0 || len(t.Columns) < 2 {
+		return false
+	}
+	idx := make([]int, len(t.Rows))
+	for i := range idx {
+		idx[i] = i
+	}
+	sort.Slice(idx, func(a, b int) bool { return t.Rows[idx[a]][0] < t.Rows[idx[b]][0] })
+	ends := []int{len(idx) - 1}
+	for e := 254; e < len(idx)-1; e += 255 {
+		ends = append(ends, e)
+	}
+	row := t.Rows[idx[ends[xr.Intn(len(ends))]]]
+	row[len(row)-1] = ""
+	return true
 }
 
 // buildC07 deterministically builds a source repository and a transfer scenario from a seed.
-func buildC07(seed int64, thorough bool) (*c07World, error) {
+func buildC07(seed int64, thorough bool, negotiated bool) (*c07World, error) {
 	r := rand.New(rand.NewSource(seed))
+	// a stream of its own for the commits' time zones: the scenario's other draws are unaffected
+	zr := rand.New(rand.NewSource(seed ^ 0x7a6f6e65))
 	w := &c07World{src: NewMemStore(), in: &c07Input{Seed: seed}, blockID: map[string]int{}, tableID: map[string]int{}, commitID: map[string]int{},
 		blockSum: map[int][]byte{}, tableSum: map[int][]byte{}, comSum: map[int][]byte{}}
 	// tables: a few logical tables, some sharing blocks
@@ -62,6 +100,12 @@ func buildC07(seed int64, thorough bool) (*c07World, error) {
 	base := GenTable(r, 2, []int{3, 20, 260, 300, 520}[r.Intn(5)], []int{0}, 0)
 	for _, row := range base.Rows {
 		row[1] = []string{"a", "b", "c"}[r.Intn(3)]
+	}
+	// block boundaries: 1 table in 3 has a block (a middle one or the last) that ends with an empty cell
+	xr := rand.New(rand.NewSource(seed ^ 0x626c6b65))
+	endsEmpty := false
+	if xr.Intn(3) == 0 {
+		endsEmpty = c07BlankBlockEnd(base, xr) || endsEmpty
 	}
 	specs = append(specs, base)
 	for len(specs) < nT {
@@ -88,6 +132,9 @@ func buildC07(seed int64, thorough bool) (*c07World, error) {
 			t := GenTable(r, 1+r.Intn(3), 1+r.Intn(30), []int{0}, 0)
 			if r.Intn(5) == 0 {
 				t.Rows = nil // a header-only table: no blocks, an empty table index
+			}
+			if xr.Intn(3) == 0 {
+				endsEmpty = c07BlankBlockEnd(t, xr) || endsEmpty
 			}
 			specs = append(specs, t)
 		}
@@ -133,12 +180,22 @@ func buildC07(seed int64, thorough bool) (*c07World, error) {
 	nTab := len(w.in.Tables)
 	// commits
 	n := 1 + r.Intn(7)
-	g := GenGraph(r, n, 0, 0.3, 0.1)
+	mergeProb := 0.3
+	if negotiated {
+		// histories worth negotiating over: at least two commits, more merges
+		n++
+		mergeProb = 0.45
+	}
+	g := GenGraph(r, n, 0, mergeProb, 0.1)
 	for i := range g {
 		g[i].Table = 1 + r.Intn(nTab)
 	}
+	w.blockEndsEmpty = endsEmpty
+	w.in.Zones = [][]int{}
 	for _, c := range g {
-		com := &objects.Commit{Table: w.tableSum[c.Table], AuthorName: "a", AuthorEmail: "e", Time: time.Unix(c.Time, 0).UTC(), Message: "c" + itoa(c.ID)}
+		zm := c07ZoneMinutes[zr.Intn(len(c07ZoneMinutes))]
+		w.in.Zones = append(w.in.Zones, []int{c.ID, zm})
+		com := &objects.Commit{Table: w.tableSum[c.Table], AuthorName: "a", AuthorEmail: "e", Time: time.Unix(c.Time, 0).In(time.FixedZone("", zm*60)), Message: "c" + itoa(c.ID)}
 		for _, p := range c.Parents {
 			com.Parents = append(com.Parents, w.comSum[p])
 		}
@@ -171,6 +228,10 @@ func buildC07(seed int64, thorough bool) (*c07World, error) {
 	}
 	for i := 0; i < r.Intn(3); i++ {
 		closure(1 + r.Intn(n))
+	}
+	if negotiated && len(have) == n {
+		// nothing left to ask for: an empty destination instead
+		have = map[int]bool{}
 	}
 	w.in.DstCommits, w.in.DstTables, w.in.DstBlocks = []int{}, []int{}, []int{}
 	dt, db := map[int]bool{}, map[int]bool{}
@@ -219,6 +280,11 @@ func buildC07(seed int64, thorough bool) (*c07World, error) {
 		}
 	}
 	sort.Ints(w.in.Common)
+	w.in.ToSend, w.in.TablesToSend = []int{}, []int{}
+	if negotiated {
+		c07Negotiation(w, r, have, n)
+		return w, nil
+	}
 	// to send: everything missing, parent-first (ids ascend along parent links), sometimes with a repeat
 	w.in.ToSend, w.in.TablesToSend = []int{}, []int{}
 	ts := map[int]bool{}
@@ -257,15 +323,95 @@ func buildC07(seed int64, thorough bool) (*c07World, error) {
 		w.in.TablesToSend = append(w.in.TablesToSend, t)
 	}
 	sort.Ints(w.in.TablesToSend)
+	w.in.MaxSize = c07MaxSize(r)
+	return w, nil
+}
+
+func c07MaxSize(r *rand.Rand) uint64 {
 	switch r.Intn(4) {
 	case 0:
-		w.in.MaxSize = 1
+		return 1
 	case 1:
-		w.in.MaxSize = 0 // default (2 GiB)
+		return 0 // default (2 GiB)
 	default:
-		w.in.MaxSize = uint64(20 + r.Intn(3000))
+		return uint64(20 + r.Intn(3000))
 	}
-	return w, nil
+}
+
+// c07Negotiation completes a scenario in which the destination asks for commits it lacks and tells
+// what it has, as fetch and push do: which commits and tables travel, and in which order, is then
+// decided by the real ClosedSetsFinder (c07Run), not by the generator.
+func c07Negotiation(w *c07World, r *rand.Rand, have map[int]bool, n int) {
+	in := w.in
+	in.Negotiated = true
+	in.Common = []int{} // reported with the outcome
+	child := map[int]bool{}
+	for _, c := range in.Commits {
+		for _, p := range c.Parents {
+			child[p] = true
+		}
+	}
+	var tips, missing []int
+	for id := 1; id <= n; id++ {
+		if !child[id] {
+			tips = append(tips, id)
+		}
+		if !have[id] {
+			missing = append(missing, id)
+		}
+	}
+	// wants: the newest missing commit (its history has the most merges) and sometimes another one
+	in.Wants = []int{missing[len(missing)-1]}
+	if r.Intn(3) == 0 {
+		x := missing[r.Intn(len(missing))]
+		if x != in.Wants[0] {
+			in.Wants = append(in.Wants, x)
+		}
+	}
+	// refs of the source: every branch tip, and the wants themselves (a want may sit below a tip)
+	in.Refs = append([]int{}, tips...)
+	for _, x := range in.Wants {
+		if child[x] && r.Intn(2) == 0 {
+			in.Refs = append(in.Refs, x)
+		}
+	}
+	// haves: the destination's tips, sometimes all it has in some order, sometimes a hash the source
+	// does not know; told in one or two rounds
+	var hs []int
+	for id := 1; id <= n; id++ {
+		if have[id] {
+			tip := true
+			for _, c := range in.Commits {
+				if have[c.ID] {
+					for _, p := range c.Parents {
+						if p == id {
+							tip = false
+						}
+					}
+				}
+			}
+			if tip || r.Intn(3) == 0 {
+				hs = append(hs, id)
+			}
+		}
+	}
+	r.Shuffle(len(hs), func(i, j int) { hs[i], hs[j] = hs[j], hs[i] })
+	if r.Intn(6) == 0 {
+		k := r.Intn(len(hs) + 1)
+		hs = append(hs[:k], append([]int{n + 1 + r.Intn(3)}, hs[k:]...)...)
+	}
+	if len(hs) > 1 && r.Intn(3) == 0 {
+		k := 1 + r.Intn(len(hs)-1)
+		in.Haves = [][]int{append([]int{}, hs[:k]...), append([]int{}, hs[k:]...)}
+	} else {
+		in.Haves = [][]int{append([]int{}, hs...)}
+	}
+	in.NegDone = r.Intn(2) == 0
+	if r.Intn(4) == 0 {
+		in.Depth = 1 + r.Intn(3)
+	}
+	in.TableAcks = r.Intn(2) == 0
+	in.MaxSize = c07MaxSize(r)
 }
 
 func copyKey(dst, src *MemStore, key []byte) {
@@ -295,24 +441,100 @@ func c07Run(w *c07World) Res {
 			copyKey(dst, w.src, append([]byte("blk/"), w.blockSum[b]...))
 		}
 		var toSend []*objects.Commit
-		for _, c := range in.ToSend {
-			toSend = append(toSend, mustCommit(w.src, w.comSum[c]))
-		}
 		tts := map[string]struct{}{}
-		for _, t := range in.TablesToSend {
-			tts[string(w.tableSum[t])] = struct{}{}
-		}
 		var common [][]byte
-		for _, c := range in.Common {
-			common = append(common, w.comSum[c])
+		var expected [][]byte
+		// neg: what the negotiation decided (negotiated transfers only), reported with every outcome
+		var neg map[string]interface{}
+		fail := func(kind string) Res {
+			e := Err(kind)
+			if neg != nil {
+				e["neg"] = neg
+			}
+			return e
+		}
+		if in.Negotiated {
+			rs, closeRS := NewRefStore()
+			defer closeRS()
+			for i, c := range in.Refs {
+				if err := rs.Set(fmt.Sprintf("heads/b%d", i), w.comSum[c]); err != nil {
+					return Err("setref")
+				}
+			}
+			sums := func(ids []int) [][]byte {
+				out := [][]byte{}
+				for _, id := range ids {
+					if s, ok := w.comSum[id]; ok {
+						out = append(out, s)
+					} else {
+						out = append(out, fakeSum(1000000+id)) // a hash the source has never seen
+					}
+				}
+				return out
+			}
+			neg = map[string]interface{}{}
+			f := apiutils.NewClosedSetsFinder(w.src, rs, in.Depth)
+			for k, batch := range in.Haves {
+				var wants [][]byte
+				if k == 0 {
+					wants = sums(in.Wants)
+				}
+				if _, err := f.Process(wants, sums(batch), k == len(in.Haves)-1 && in.NegDone); err != nil {
+					return fail("negotiate")
+				}
+			}
+			commits, err := f.CommitsToSend()
+			if err != nil {
+				return fail("commits-to-send")
+			}
+			tables, err := f.TablesToSend()
+			if err != nil {
+				return fail("tables-to-send")
+			}
+			common = f.CommonCommmits()
+			sent, tids, cids := []int{}, []int{}, []int{}
+			for _, c := range commits {
+				// a commit handed out by the finder carries no sum: it is identified by its message
+				var id int
+				fmt.Sscanf(c.Message, "c%d", &id)
+				sent = append(sent, id)
+			}
+			dstT := map[int]bool{}
+			for _, t := range in.DstTables {
+				dstT[t] = true
+			}
+			for t := range tables {
+				id := w.tableID[t]
+				if in.TableAcks && dstT[id] {
+					// the destination acknowledged this table: it is taken off the list (ReceivePackSession.negotiate)
+					continue
+				}
+				tts[t] = struct{}{}
+				tids = append(tids, id)
+			}
+			for _, c := range common {
+				cids = append(cids, w.commitID[string(c)])
+			}
+			sort.Ints(tids)
+			sort.Ints(cids)
+			neg["sent"], neg["tables"], neg["commons"] = sent, tids, cids
+			toSend = commits
+			expected = sums(in.Wants)
+		} else {
+			for _, c := range in.ToSend {
+				toSend = append(toSend, mustCommit(w.src, w.comSum[c]))
+				expected = append(expected, w.comSum[c])
+			}
+			for _, t := range in.TablesToSend {
+				tts[string(w.tableSum[t])] = struct{}{}
+			}
+			for _, c := range in.Common {
+				common = append(common, w.comSum[c])
+			}
 		}
 		sender, err := apiutils.NewObjectSender(w.src, toSend, tts, common, in.MaxSize)
 		if err != nil {
-			return Err("new-sender")
-		}
-		var expected [][]byte
-		for _, c := range in.ToSend {
-			expected = append(expected, w.comSum[c])
+			return fail("new-sender")
 		}
 		recv := apiutils.NewObjectReceiver(dst, expected, logr.Discard())
 		packs := [][][]int{}
@@ -321,15 +543,15 @@ func c07Run(w *c07World) Res {
 			buf := bytes.NewBuffer(nil)
 			done, _, err := sender.WriteObjects(buf, nil)
 			if err != nil {
-				return Err("write-objects")
+				return fail("write-objects")
 			}
 			pr, err := packfile.NewPackfileReader(io.NopCloser(bytes.NewReader(buf.Bytes())))
 			if err != nil {
-				return Err("packfile-reader")
+				return fail("packfile-reader")
 			}
 			rd, err := recv.Receive(pr, nil)
 			if err != nil {
-				return Err("receive")
+				return fail("receive")
 			}
 			recvDone = rd
 			objs := [][]int{}
@@ -378,7 +600,15 @@ func c07Run(w *c07World) Res {
 		})
 		// received tables: dump for the structural invariant, and diff against the original
 		checks := []interface{}{}
-		for _, t := range in.TablesToSend {
+		checkTables := in.TablesToSend
+		if in.Negotiated {
+			// whichever tables the negotiation selected: every table the destination holds now
+			checkTables = []int{}
+			for _, t := range in.Tables {
+				checkTables = append(checkTables, t.ID)
+			}
+		}
+		for _, t := range checkTables {
 			sum := w.tableSum[t]
 			if !objects.TableExist(dst, sum) {
 				continue
@@ -405,15 +635,21 @@ func c07Run(w *c07World) Res {
 				checks = append(checks, map[string]interface{}{"id": t, "table": d, "hashes": hashRows(d), "issues": iss, "derivedSame": same})
 			}
 		}
-		return Ok(map[string]interface{}{"packs": packs, "keys": keys, "identical": identical, "done": recvDone, "tableChecks": checks})
+		val := map[string]interface{}{"packs": packs, "keys": keys, "identical": identical, "done": recvDone, "tableChecks": checks}
+		if neg != nil {
+			val["neg"] = neg
+		}
+		return Ok(val)
 	})
 }
 
 func runC07(ctx *Ctx) {
 	seed := ctx.Seed*1000003 + int64(ctx.Idx)
-	w, err := buildC07(seed, ctx.Thorough())
+	// one case in four is negotiated: the commit list comes from the real ClosedSetsFinder
+	negotiated := ctx.Idx%4 == 3
+	w, err := buildC07(seed, ctx.Thorough(), negotiated)
 	if err != nil {
-		ctx.Emit("xfer", map[string]interface{}{"genSeed": seed}, Err("build"), false)
+		ctx.Emit("xfer", map[string]interface{}{"genSeed": seed, "negotiated": negotiated}, Err("build"), false)
 		return
 	}
 	res := c07Run(w)
@@ -425,6 +661,10 @@ func runC07(ctx *Ctx) {
 	if len(w.in.DstCommits) > 0 {
 		tags = append(tags, "dest-prepopulated")
 	}
+	tags = append(tags, c07Tags(w.in)...)
+	if w.blockEndsEmpty {
+		tags = append(tags, "block-ends-with-empty-cell")
+	}
 	ctx.Emit("xfer", w.in, res, nt, tags...)
 }
 
@@ -433,9 +673,61 @@ func corpusC07(ctx *Ctx, op string, raw json.RawMessage) {
 	if err := json.Unmarshal(raw, &in); err != nil {
 		panic(err)
 	}
-	w, err := buildC07(in.Seed, true)
+	w, err := buildC07(in.Seed, true, in.Negotiated)
 	if err != nil {
 		return
 	}
-	ctx.Emit("xfer", w.in, c07Run(w), true, "corpus")
+	ctx.Emit("xfer", w.in, c07Run(w), true, append([]string{"corpus"}, c07Tags(w.in)...)...)
+}
+
+func c07Tags(in *c07Input) []string {
+	tags := []string{}
+	if in.Negotiated {
+		tags = append(tags, "negotiated")
+		if in.Depth > 0 {
+			tags = append(tags, "negotiated-depth")
+		}
+		// a merge in the wanted history: some commit is reached from the want along several paths
+		byID := map[int]GCommit{}
+		for _, c := range in.Commits {
+			byID[c.ID] = c
+		}
+		seen := map[int]bool{}
+		var walk func(int) bool
+		walk = func(id int) bool {
+			if seen[id] {
+				return false
+			}
+			seen[id] = true
+			m := len(byID[id].Parents) > 1
+			for _, p := range byID[id].Parents {
+				if walk(p) {
+					m = true
+				}
+			}
+			return m
+		}
+		for _, x := range in.Wants {
+			if walk(x) {
+				tags = append(tags, "negotiated-merge")
+				break
+			}
+		}
+	}
+	// zones: a commit that travels was authored west of UTC in a zone that is not a whole number of hours
+	travels := map[int]bool{}
+	for _, c := range in.ToSend {
+		travels[c] = true
+	}
+	dst := map[int]bool{}
+	for _, c := range in.DstCommits {
+		dst[c] = true
+	}
+	for _, z := range in.Zones {
+		if (travels[z[0]] || in.Negotiated && !dst[z[0]]) && z[1] < 0 && z[1]%60 != 0 {
+			tags = append(tags, "zone-west-fractional")
+			break
+		}
+	}
+	return tags
 }
